@@ -22,6 +22,7 @@ contract(f"{SS}.verify_service:VerifyService.verify", props=["C03", "C09", "C05"
              "no_plain_message_without_success": "implies(result.report.value != 0, len(result.plain_message) == 0)",
              "accepted_only_if_its_aid_is_permitted_by_the_ticket": "implies(result.report.value == 0, ticket_permits(looked_up_ticket(), signed_data()['tbsData']['headerInfo']['psid']))",
              "accepted_only_within_the_ticket_validity_period": "implies(result.report.value == 0, ticket_valid_at(looked_up_ticket(), signed_data()['tbsData']['headerInfo']['generationTime']))",
+             "incompatible_protocol_only_for_fields_the_message_profile_forbids": "implies(result.report.value == 11, 'p2pcdLearningRequest' in signed_data()['tbsData']['headerInfo'] or 'missingCrlIdentifier' in signed_data()['tbsData']['headerInfo'] or signed_data()['tbsData']['headerInfo']['psid'] == 37)",
              "unknown_digest_not_accepted": "implies(len(ghost('ticket_lookups')) == 1 and looked_up_ticket() is None, result.report.value != 0)"},
          cover=["result.report.value == 0", "result.report.value == 1"],
          canary={"always_success": "result.report.value == 0"}, **S)
